@@ -43,6 +43,8 @@ val nth : nat -> 'a1 list -> 'a1 -> 'a1
 
 val nth_error : 'a1 list -> nat -> 'a1 option
 
+val last : 'a1 list -> 'a1 -> 'a1
+
 val rev : 'a1 list -> 'a1 list
 
 val rev_append : 'a1 list -> 'a1 list -> 'a1 list
@@ -53,7 +55,11 @@ val flat_map : ('a1 -> 'a2 list) -> 'a1 list -> 'a2 list
 
 val fold_left : ('a1 -> 'a2 -> 'a1) -> 'a2 list -> 'a1 -> 'a1
 
+val fold_right : ('a2 -> 'a1 -> 'a1) -> 'a1 -> 'a2 list -> 'a1
+
 val existsb : ('a1 -> bool) -> 'a1 list -> bool
+
+val filter : ('a1 -> bool) -> 'a1 list -> 'a1 list
 
 val firstn : nat -> 'a1 list -> 'a1 list
 
@@ -273,6 +279,8 @@ val u_to_z : n -> n -> n -> z
 
 val overwrite : bytes -> nat -> bytes -> bytes
 
+val beq_bytes : bytes -> bytes -> bool
+
 val all_zero : bytes -> bool
 
 type str = n list
@@ -371,6 +379,10 @@ val frameEntry : n
 val frameIndex : n
 
 val frameCommit : n
+
+val firstExternalCodecID : n
+
+val binaryCodecID : n
 
 val file_header_len : n
 
@@ -587,10 +599,300 @@ val run_ops : nat -> sst -> str list -> str list -> str list
 
 val run_seg : str list -> str
 
+val llen : 'a1 list -> n
+
+val sub64 : n -> n -> n
+
+type pstate = { ps_next_id : n; ps_segs : seginfo list }
+
+type fname = n * n
+
+val name_of : seginfo -> fname
+
+val fname_eqb : fname -> fname -> bool
+
+type pbatch = { pb_ents : log list; pb_end : n; pb_seal : n }
+
+type dfile = { df_ents : log list; df_end : n; df_seal : n;
+               df_pend : pbatch option; df_dir : bool; df_size : n }
+
+type kv = bytes * bytes
+
+type disk = { dk_files : (fname * dfile) list; dk_meta : pstate option;
+              dk_stable : kv list; dk_inited : bool }
+
+val empty_disk : disk
+
+val lookup : fname -> (fname * dfile) list -> dfile option
+
+val update : fname -> dfile -> (fname * dfile) list -> (fname * dfile) list
+
+val remove : fname -> (fname * dfile) list -> (fname * dfile) list
+
+type act =
+| ACreate of fname * n
+| AWrite of fname * n * n * pbatch
+| ASync of fname
+| ADelete of fname
+| ACommit of pstate
+| ASetStable of bytes * bytes
+| AInitMeta
+| AFail of act
+
+val bytes_eqb : bytes -> bytes -> bool
+
+val kv_set : bytes -> bytes -> kv list -> kv list
+
+val kv_get : bytes -> kv list -> bytes
+
+val apply_act : disk -> act -> disk
+
+val cur_ents : dfile -> log list
+
+val cur_end : dfile -> n
+
+val cur_seal : dfile -> n
+
+type crash_choice = { cc_keep_file : fname list; cc_keep_batch : fname list }
+
+val mem_name : fname -> fname list -> bool
+
+val crash_file : crash_choice -> (fname * dfile) -> (fname * dfile) list
+
+val crash_disk : crash_choice -> disk -> disk
+
+type wseg = { ws_name : fname; ws_base : n; ws_min : n; ws_limit : n;
+              ws_n : n; ws_off : n; ws_hdr : bool; ws_index_start : n;
+              ws_commit_idx : n }
+
+type metrics = { m_bytes_written : n; m_entries_written : n; m_appends : 
+                 n; m_bytes_read : n; m_entries_read : n; m_rotations : 
+                 n; m_head_trunc : n; m_tail_trunc : n; m_stable_gets : 
+                 n; m_stable_sets : n }
+
+val zero_metrics : metrics
+
+type cfg = { c_seg_size : n; c_codec : n }
+
+type wal = { st_next_id : n; st_segs : seginfo list; st_tail : wseg option;
+             st_rotate : n option; st_failed : bool; st_closed : bool }
+
+type result =
+| ROk0
+| RErrClosed
+| RErrNotFound
+| RErrNonMono
+| RErrMiddle
+| RErrSealed
+| RErrTooBig
+| RErrCorrupt
+| RErrIO
+| RErrFailed
+| RErrOther
+| RVal of n
+| RLog of log
+| RBytes of bytes
+
+type env = { e_acts : act list; e_disk : disk; e_fault : nat option;
+             e_m : metrics }
+
+val is_delete : act -> bool
+
+val io : act -> env -> bool * env
+
+val with_m : env -> metrics -> env
+
+val seg_set : seginfo -> seginfo list -> seginfo list
+
+val seg_del : n -> seginfo list -> seginfo list
+
+val tail_info : seginfo list -> seginfo option
+
+val tail_last : wseg option -> n
+
+val first_index : seginfo list -> wseg option -> n
+
+val last_index : seginfo list -> wseg option -> n
+
+val seek_split :
+  n -> seginfo list -> seginfo list -> seginfo list * seginfo list
+
+val find_segment : seginfo list -> n -> seginfo option
+
+val enc_len : log -> n
+
+val frames_size : log list -> n
+
+val new_wseg : seginfo -> wseg
+
+val seg_create : seginfo -> env -> wseg option * env
+
+val seg_append : wseg -> log list -> env -> (result * wseg) * env
+
+val seg_force_seal : wseg -> env -> (result * wseg) * env
+
+val seg_recover : seginfo -> env -> wseg option option
+
+val seg_read : fname -> n -> n -> disk -> log option
+
+val new_segment : cfg -> n -> n -> seginfo
+
+val delete_files : fname list -> env -> env
+
+type txn = { tx_next_id : n; tx_segs : seginfo list; tx_delete : fname list;
+             tx_create : seginfo option; tx_tail : wseg option }
+
+val create_next :
+  cfg -> n -> seginfo list -> n -> (n * seginfo list) * seginfo
+
+val mutate_gen :
+  bool -> wal -> txn -> env -> ((result * wal) * env) * fname list
+
+val mutate : wal -> txn -> env -> (result * wal) * env
+
+val add_m : env -> (metrics -> metrics) -> env
+
+val rotate : cfg -> wal -> env -> wal * env
+
+val reset_first :
+  cfg -> wal -> n -> env -> ((result * wal) * env) * fname list
+
+val check_logs : n -> log list -> result * n
+
+val store_logs : cfg -> wal -> log list -> env -> (result * wal) * env
+
+val head_scan :
+  n -> n -> seginfo list -> fname list -> n -> ((seginfo list * fname
+  list) * n) * seginfo option
+
+val truncate_head : cfg -> wal -> n -> env -> (result * wal) * env
+
+val tail_scan :
+  n -> n -> seginfo list -> fname list -> n -> (seginfo list * fname list) * n
+
+val truncate_tail : cfg -> wal -> n -> env -> (result * wal) * env
+
+val delete_range : cfg -> wal -> n -> n -> env -> (result * wal) * env
+
+val codec_view : log -> log
+
+val inc_read : env -> n -> bool -> env
+
+val tail_lookup : wseg -> n -> disk -> log option
+
+val get_log : wal -> n -> env -> result * env
+
+val first_index_op : wal -> result
+
+val last_index_op : wal -> result
+
+val inc_stable : env -> bool -> env
+
+val key_ok : bytes -> bool
+
+val set_stable : wal -> bytes -> bytes -> bool -> env -> result * env
+
+val get_stable : wal -> bytes -> env -> result * env
+
+val set_uint64 : wal -> bytes -> n -> env -> result * env
+
+val get_uint64 : wal -> bytes -> env -> result * env
+
+val close : wal -> wal
+
+type open_res =
+| OOk of wal
+| OErr of result
+
+val open_segs :
+  cfg -> seginfo list -> seginfo list -> env -> ((result * seginfo
+  list) * wseg option) * env
+
+val listed : seginfo list -> fname -> bool
+
+val open_wal : cfg -> env -> open_res * env
+
+type rst = { r_cfg : cfg; r_wal : wal option; r_env : env; r_mark : nat;
+             r_base : disk; r_base_n : nat }
+
+val s_closed : str
+
+val s_nf0 : str
+
+val s_nonmono0 : str
+
+val s_middle : str
+
+val s_sealed : str
+
+val s_toobig0 : str
+
+val s_failed : str
+
+val s_noop : str
+
+val colon0 : n
+
+val dot : n
+
+val bang : n
+
+val comma : n
+
+val show_result : result -> str
+
+val show_name : fname -> str
+
+val show_act : act -> str
+
+val str_leb : str -> str -> bool
+
+val insert_str : str -> str list -> str list
+
+val sort_strs : str list -> str list
+
+val is_delete0 : str -> bool
+
+val canon_acts : str list -> str list -> str list
+
+val show_trace : act list -> str
+
+val show_seg : seginfo -> str
+
+val show_pstate : pstate option -> str
+
+val show_metrics : metrics -> str
+
+val name_leb : fname -> fname -> bool
+
+val insert_name : fname -> fname list -> fname list
+
+val show_dir : disk -> str
+
+val parse_logs : nat -> str list -> (log list * str list) option
+
+val parse_names : nat -> str list -> (fname list * str list) option
+
+val chr0 : n -> str -> bool
+
+val settle : rst -> rst
+
+val set_we : rst -> wal -> env -> rst
+
+val set_e : rst -> env -> rst
+
+val audit : nat -> wal -> env -> n -> n -> str list -> str list
+
+val run_ops0 : nat -> rst -> str list -> str list -> str list
+
+val run_wal : str list -> str
+
 val k_enc : str
 
 val k_dec : str
 
 val k_seg : str
+
+val k_wal : str
 
 val run_line : str -> str
